@@ -69,7 +69,10 @@ func (vc *FnVC) lvalPtr(lv *Lval) string {
 	if lv.ref == "" {
 		// address of a global
 		name := "addr$" + lv.comp
-		vc.enc.declConst(name, sInt)
+		if !vc.enc.declared[name] {
+			vc.enc.declConst(name, sInt)
+			vc.enc.header = append(vc.enc.header, "(assert (< "+name+" 0))")
+		}
 		return name
 	}
 	fn := "fa$" + lv.comp
@@ -261,6 +264,24 @@ func (vc *FnVC) instr(ins ssa.Instruction, st *State) {
 	case *ssa.ChangeType:
 		v := vc.val(x.X)
 		if v.k == vTerm {
+			if sst, ok := x.X.Type().Underlying().(*types.Struct); ok {
+				// conversion between struct types with identical underlying types: rebuild the
+				// value in the target's datatype, field by field
+				from := vc.enc.sortOf(x.X.Type())
+				to := vc.enc.sortOf(x.Type())
+				if from != to {
+					var fs []string
+					for i := 0; i < sst.NumFields(); i++ {
+						fs = append(fs, fmt.Sprintf("(%s$%d %s)", from, i, v.tv.S))
+					}
+					if len(fs) == 0 {
+						v.tv.S = "mk$" + to
+					} else {
+						v.tv.S = "(mk$" + to + " " + strings.Join(fs, " ") + ")"
+					}
+					v.tv.Sort = to
+				}
+			}
 			v.tv.Ty = x.Type()
 		}
 		vc.vals[x] = v
